@@ -17,7 +17,7 @@ KEEP_DERIVES = ('Clone', 'Copy', 'PartialEq', 'Eq', 'Hash')
 REWRITES = {
     'R1': 'log macro statements deleted / log_enabled! made opaque',
     'R2': 'format!/literal to_string replaced by opaque vx_string()',
-    'R3': 'for PAT in E.iter().copied() -> explicit deref binding',
+    'R3': 'for PAT in E.iter().copied()  /  for &PAT in E  -> loop over references with an explicit `let PAT = *item;` at the top of the body',
     'R4': 'visibility widened, serde/allow attrs and non-structural derives dropped, Structural marker added',
     'R5': 'let-chain without else desugared to nested if',
     'R6': 'unreferenced enum variants dropped (VxOther stands for the rest)',
@@ -30,6 +30,7 @@ REWRITES = {
     'R14': 'iterator-chain initialiser (`.iter().filter(..).copied().collect()`) replaced by a call to a declared function whose contract is ASSUMED (listed in evidence); only where the chain is not what the property is about',
     'R15': 'closure body lifted verbatim into a named function whose parameter list (closure parameters + captured variables, with types) is supplied by the unit; the enclosing iterator chain is not verified',
     'R16': '`if C { continue; }` as a direct statement of a for-loop body becomes `if !(C) { <rest of the body> }` (Verus for-loops do not support continue)',
+    'R17': 'the k-th loop of a function lifted verbatim into a named function whose parameter list (the variables the loop reads, and `&mut` for collections it pushes to) the unit supplies; the code before and after the loop is not verified',
     'R12': 'derive(Default) expanded to the field-wise impl the derive generates (inside verus!, verified, not assumed)',
 }
 
@@ -681,6 +682,134 @@ pub assume_specification [<{q} as PartialEq>::eq] (a: &{q}, b: &{q}) -> (r: bool
         self.extracted.append((path, f'fn {(impl + "::") if impl else ""}{fn}' + (' [signature only, body assumed]' if external_body else '')))
         return segs
 
+    def _ghost_segs(self, text, fid, clause_list):
+        """ghost text -> [Seg]; `/*@name*/ assert(...)` steps become obligations <fid>.assert.<name>"""
+        gsegs = []
+        parts = re.split(r'(/\*@[A-Za-z0-9_.]+\*/)', text)
+        cur = None
+        for p in parts:
+            m = re.fullmatch(r'/\*@([A-Za-z0-9_.]+)\*/', p)
+            if m:
+                cur = m.group(1)
+                continue
+            if cur:
+                j = p.find(';')
+                j = len(p) if j < 0 else j + 1
+                cid = f'{fid}.assert.{cur}'
+                self.clauses[cid] = {'kind': 'assert', 'fn': fid, 'text': ' '.join(p[:j].split())}
+                clause_list.append(cid)
+                gsegs.append(Seg(p[:j], clause=cid, fn=fid))
+                gsegs.append(Seg(p[j:]))
+                cur = None
+            else:
+                gsegs.append(Seg(p))
+        return gsegs
+
+    def _inner_edits(self, src, e, lo, hi, fn):
+        """R1 / R2 / R5 for the part [lo, hi) of a function, exactly as fn() applies them to a whole body"""
+        edits = []
+        for m in e['macros']:
+            ms, mt = m['span']
+            if not (lo <= ms and mt <= hi):
+                continue
+            nm = m['name']
+            if nm in LOG_MACROS:
+                edits.append((ms, mt, [Seg('()')] if not m['stmt'] else []))
+                self._rw('R1')
+            elif nm in ('log_enabled', 'log::log_enabled'):
+                edits.append((ms, mt, [Seg('vx_log_enabled()')]))
+                self._rw('R1')
+            elif nm == 'format':
+                edits.append((ms, mt, [Seg('vx_string()')]))
+                self._rw('R2')
+        for lc in e['letchains']:
+            cs, ct = lc['cond']
+            if not (lo <= cs and ct <= hi):
+                continue
+            if lc['has_else']:
+                raise ToolLimit(f'{fn}: let-chain with else (R5 does not apply)')
+            cond = src[cs:ct].decode()
+            parts = [pp.strip() for pp in re.split(r'&&', cond)]
+            if not parts[0].startswith('let ') or any(pp.startswith('let ') for pp in parts[1:]):
+                raise ToolLimit(f'{fn}: let-chain shape not supported by R5: {cond}')
+            ts, tt = lc['then']
+            edits.append((cs, ct, [Seg(parts[0])]))
+            edits.append((ts + 1, ts + 1, [Seg(' if ' + ' && '.join(parts[1:]) + ' {')]))
+            edits.append((tt - 1, tt - 1, [Seg('} ')]))
+            self._rw('R5')
+        return edits
+
+    def loop_fn(self, path, impl, fn, k, name, sig, requires=(), ensures=(), invariant=(), iter=None, trait=None,
+                ghost_before='', ghost_loop_start='', ghost_loop_end='', ghost_after='', tail=''):
+        """R17: the k-th loop of a krill fn, verbatim, as the body of a standalone fn `name sig`."""
+        kw = {'fn': fn}
+        if impl is not None:
+            kw['impl'] = impl
+        if trait is not None:
+            kw['trait'] = trait
+        src, e = find(path, 'fn', **kw)
+        if k >= len(e['loops']):
+            raise LostAnchor(f'{fn}: loop #{k} not found ({len(e["loops"])} loops)')
+        L = e['loops'][k]
+        ls, lt = L['span']
+        fid = f'{self.prop}.{self.name}.{(impl + "::") if impl else ""}{fn}.loop{k}'
+        clause_list = []
+        segs = [Seg(f'/*VXFN {fid}*/ pub fn {name}{sig}\n/*VXC*/\n')]
+        for kind, items in (('requires', requires), ('ensures', ensures)):
+            if not items:
+                continue
+            segs.append(Seg(f'        {kind}\n'))
+            for nm, text in items:
+                cid = f'{fid}.{kind}.{nm}'
+                self.clauses[cid] = {'kind': kind, 'fn': fid, 'text': ' '.join(text.split())}
+                clause_list.append(cid)
+                segs.append(Seg('            '))
+                segs.append(Seg(text.strip().rstrip(','), clause=cid, fn=fid))
+                segs.append(Seg(',\n'))
+        segs.append(Seg('/*VXCE*/{\n'))
+        segs += self._ghost_segs(ghost_before, fid, clause_list)
+        edits = self._inner_edits(src, e, ls, lt, fn)
+        lsegs = [Seg('\n')]
+        if invariant:
+            lsegs.append(Seg('            invariant\n'))
+            for nm, text in invariant:
+                cid = f'{fid}.inv.{nm}'
+                self.clauses[cid] = {'kind': 'invariant', 'fn': fid, 'text': ' '.join(text.split())}
+                clause_list.append(cid)
+                lsegs.append(Seg('                '))
+                lsegs.append(Seg(text.strip().rstrip(','), clause=cid, fn=fid))
+                lsegs.append(Seg(',\n'))
+        edits.append((L['body'][0], L['body'][0], lsegs))
+        if iter and L['kind'] == 'for':
+            edits.append((L['expr'][0], L['expr'][0], [Seg(iter + ': ')]))
+        deref_bind = ''
+        if L['kind'] == 'for':
+            pat = src[L['pat'][0]:L['pat'][1]].decode().strip()
+            if pat.startswith('&') and not pat.startswith('&mut'):
+                # R3: `for &x in E` (reference pattern, not supported by Verus)
+                edits.append((L['pat'][0], L['pat'][1], [Seg(f'vx_c{k}')]))
+                deref_bind = f' let {pat[1:].strip()} = *vx_c{k}; '
+                self._rw('R3')
+        if deref_bind or ghost_loop_start:
+            edits.append((L['body'][0] + 1, L['body'][0] + 1, [Seg(deref_bind + '\n')] + self._ghost_segs(ghost_loop_start, fid, clause_list) + [Seg('\n')]))
+        if ghost_loop_end:
+            edits.append((L['body'][1] - 1, L['body'][1] - 1, [Seg('\n')] + self._ghost_segs(ghost_loop_end, fid, clause_list) + [Seg('\n')]))
+        segs += _apply_edits(src, ls, lt, edits)
+        segs.append(Seg('\n'))
+        segs += self._ghost_segs(ghost_after, fid, clause_list)
+        segs.append(Seg(tail + '\n}'))
+        segs.append(Seg(f' /*VXEND {fid}*/\n'))
+        for sg in segs:
+            if sg.fn is None:
+                sg.fn = fid
+        cid = f'{fid}.safety'
+        self.clauses[cid] = {'kind': 'safety', 'fn': fid, 'text': 'implicit: callee preconditions, arithmetic overflow, index bounds, unwrap, panic!/unreachable! arms unreachable'}
+        clause_list.append(cid)
+        self.functions.append({'id': fid, 'path': path, 'impl': impl, 'fn': name, 'clauses': clause_list, 'loops': 1, 'trait': False})
+        self._rw('R17')
+        self.extracted.append((path, f'loop #{k} of fn {(impl + "::") if impl else ""}{fn} [loop only]'))
+        return segs
+
     def closure_fn(self, path, impl, fn, k, name, sig, requires=(), ensures=(), trait=None, ghost_start='', ghost_end=''):
         """R15: the body of the k-th closure of a krill fn, verbatim, as a standalone fn `name sig`; sig must name the closure's
         own parameters and the variables it captures, e.g. '(other: &ConfiguredRoa, roa: &ConfiguredRoa) -> (r: bool)'."""
@@ -708,38 +837,9 @@ pub assume_specification [<{q} as PartialEq>::eq] (a: &{q}, b: &{q}) -> (r: bool
                 segs.append(Seg('            '))
                 segs.append(Seg(text.strip().rstrip(','), clause=cid, fn=fid))
                 segs.append(Seg(',\n'))
-        segs.append(Seg('/*VXCE*/{\n' + ghost_start))
-        # R1 / R2 / R5 inside the closure body, exactly as in fn()
-        edits = []
-        for m in e['macros']:
-            ms, mt = m['span']
-            if not (cbs <= ms and mt <= cbt):
-                continue
-            nm = m['name']
-            if nm in LOG_MACROS:
-                edits.append((ms, mt, [Seg('()')] if not m['stmt'] else []))
-                self._rw('R1')
-            elif nm in ('log_enabled', 'log::log_enabled'):
-                edits.append((ms, mt, [Seg('vx_log_enabled()')]))
-                self._rw('R1')
-            elif nm == 'format':
-                edits.append((ms, mt, [Seg('vx_string()')]))
-                self._rw('R2')
-        for lc in e['letchains']:
-            cs, ct = lc['cond']
-            if not (cbs <= cs and ct <= cbt):
-                continue
-            if lc['has_else']:
-                raise ToolLimit(f'{fn}: let-chain with else (R5 does not apply)')
-            cond = src[cs:ct].decode()
-            parts = [pp.strip() for pp in re.split(r'&&', cond)]
-            if not parts[0].startswith('let ') or any(pp.startswith('let ') for pp in parts[1:]):
-                raise ToolLimit(f'{fn}: let-chain shape not supported by R5: {cond}')
-            ts, tt = lc['then']
-            edits.append((cs, ct, [Seg(parts[0])]))
-            edits.append((ts + 1, ts + 1, [Seg(' if ' + ' && '.join(parts[1:]) + ' {')]))
-            edits.append((tt - 1, tt - 1, [Seg('} ')]))
-            self._rw('R5')
+        segs.append(Seg('/*VXCE*/{\n'))
+        segs += self._ghost_segs(ghost_start, fid, clause_list)
+        edits = self._inner_edits(src, e, cbs, cbt, fn)
         segs += _apply_edits(src, cbs, cbt, edits)
         segs.append(Seg('\n' + ghost_end + '}'))
         segs.append(Seg(f' /*VXEND {fid}*/\n'))
